@@ -134,7 +134,7 @@ class CallTimeout(BaseException):
     """raised by the CPU-time limit around one call of the implementation (BaseException: must not be swallowed by `except Exception`)"""
 
 
-CALL_LIMIT_S = {"quick": 8.0, "thorough": 40.0}
+CALL_LIMIT_S = {"quick": 8.0, "thorough": 12.0}  # x (4 calls + 2 retries) stays below the pool's 90 s task limit
 _tier = "quick"
 
 
